@@ -87,6 +87,14 @@ ASSUMPTIONS = ["sub-masks are subsets of the construction mask (the property's q
                "|alpha(q-+k) - cutoff| < 1e-5 cutoff (hard aperture), |sin chi_q| < 2e-5 (1+|chi_q|) (sign flip), 0 < |gamma| < 1e-4 and the DC "
                "bin (ssb: gamma/|gamma|; the DC bin multiplies the zeroed DC of the spectrum); the end-to-end comparison is skipped for a "
                "problem that has such a point",
+               "translator fallback: when dpkernel2lean cannot FOLLOW the current source (construct outside its grammar, or a slice whose "
+               "translated body is not closed over its parameters) the last good Generated/DirectKernel.lean stays and the tie is carried by "
+               "the Float streams alone: every translated definition is exercised by `kernel-full` (aperture / aberration_surface / "
+               "evaluate_probe via probe_k and BF_weights, gradients via grad_k, polar_coordinates / _passively_rotate_grid via k_grid and "
+               "probe_k, gamma_factor and the five kernel branches via the per-pixel factor / power / |gamma|, Butterworth envelope, sign) "
+               "and, when the private kernel method is gone too, by `reconstruct-full` (whole reconstruction through the public API)",
+               "quantem-private helpers (_normalize_kernel_name, _return_bf_context, _return_kernel_contributions) are internal stages: used "
+               "when present in their known form, skipped with a note in the evidence otherwise; no predicate judges a private helper",
                "a call that raises inside a history is caught by the caller (the harness); nothing is asserted about WHICH calls raise, "
                "only that the stored hyper-parameters are unchanged and that every later valid call equals a fresh object's"]
 EXPLANATION = ("Theorems in Props/C04.lean are about Model/DirectPtycho.lean + Model/DirectKernel.lean over Generated/DirectKernel.lean, "
